@@ -107,4 +107,11 @@ Definition mem_step (n x : string) (b : bool) (o : pop) : bool :=
   end.
 Definition mem_after (n x : string) (b : bool) (ops : list pop) : bool := fold_left (mem_step n x) ops b.
 
+(* the sorted duplicate-free list [out] is the set union / difference: stated by membership only *)
+Definition set_ok_union (has more out : list string) : bool :=
+  ssorted out && forallb (fun x => smem x out) (has ++ more) && forallb (fun x => smem x has || smem x more) out.
+Definition set_ok_diff (has rm out : list string) : bool :=
+  ssorted out && forallb (fun x => smem x rm || smem x out) has
+  && forallb (fun x => smem x has && negb (smem x rm)) out.
+
 Definition children_wf (cs : children) : bool := forallb (fun c => ssorted (snd c)) cs.
